@@ -5,6 +5,8 @@ Writes /verif/seeded/<id>/detection.json and prints a kill matrix."""
 import json, os, subprocess, sys
 
 ROOT = "/verif"
+# the tree the patches are applied to: /repo, or a scratch worktree named by VERIF_REPO (check.sh analyses the same tree)
+REPO = os.environ.get("VERIF_REPO", "/repo")
 def sh(cmd, cwd=None):
     p = subprocess.run(cmd, shell=True, cwd=cwd, capture_output=True, text=True, errors="replace")
     return p.returncode, p.stdout + p.stderr
@@ -14,9 +16,9 @@ def claimed():
 
 def main():
     ids = sys.argv[1:] or sorted(os.listdir(f"{ROOT}/seeded"))
-    rc, out = sh("git -C /repo status --porcelain")
+    rc, out = sh(f"git -C {REPO} status --porcelain")
     if out.strip():
-        print("refusing: /repo working tree is not clean"); sys.exit(2)
+        print(f"refusing: {REPO} working tree is not clean"); sys.exit(2)
     props = claimed()
     for sid in ids:
         d = f"{ROOT}/seeded/{sid}"
@@ -24,9 +26,9 @@ def main():
             continue
         meta = json.load(open(f"{d}/meta.json"))
         target = meta.get("property")
-        rc, out = sh(f"git -C /repo apply {d}/patch.diff")
+        rc, out = sh(f"git -C {REPO} apply {d}/patch.diff")
         if rc != 0:
-            rc, out = sh(f"git -C /repo apply --3way {d}/patch.diff"); sh("git -C /repo reset -q")
+            rc, out = sh(f"git -C {REPO} apply --3way {d}/patch.diff"); sh(f"git -C {REPO} reset -q")
         det = {"seed": sid, "property": target, "applies": rc == 0, "results": {}}
         try:
             if rc == 0:
@@ -40,14 +42,14 @@ def main():
                         if rc2 != 0:
                             det["results"][pr] = {"exit": rc2, "reports": lines[:6]}
         finally:
-            sh("git -C /repo checkout -- . && git -C /repo clean -fdq")
+            sh(f"git -C {REPO} checkout -- . && git -C {REPO} clean -fdq")
         det["detected_by"] = sorted(k for k, v in det["results"].items() if v["exit"] == 1)
         det["broken_checks"] = sorted(k for k, v in det["results"].items() if v["exit"] not in (0, 1))
         json.dump(det, open(f"{d}/detection.json", "w"), indent=1)
         print(f"{sid:10s} target={target} detected_by={det['detected_by']} broken={det['broken_checks']}")
     # restore evidence of the unchanged tree
     for pr in props:
-        sh(f"./check.sh {pr} quick", cwd=ROOT)
+        sh(f"VERIF_REPO=/repo ./check.sh {pr} quick", cwd=ROOT)
 
 if __name__ == "__main__":
     main()
